@@ -78,6 +78,9 @@ Pinf(I) ==
     /\ Interior(I.z0, I.dims)
     /\ IsZero(Add(GTz(I, I.z0), ATy(I, I.y0)))
     /\ SDot(I.h, I.z0, Wt(I.dims)) + Dot(I.b, I.y0) < 0
+    \* and the dual is strictly feasible (so the problem is not infeasible on both sides)
+    /\ Interior(I.z1, I.dims)
+    /\ IsZero(Add(Add(GTz(I, I.z1), ATy(I, I.y1)), I.c))
 
 \* primal strictly feasible and a strictly improving ray:  A xr = 0, -G xr in the interior, c'xr < 0
 Dinf(I) ==
